@@ -1101,6 +1101,14 @@ def p_act( ctx ):
             res.bad( src, run, run, 'the frame must be parsed from the per-connection source into the per-iteration data' )
     else:
         res.bad( src, fn, 'machine.run', 'frame parser is not run under contextlib.closing' )
+    # the only ways out of the frame-parsing loop are exhaustion of the engine (frame complete) or an exception: no break / return
+    escapes = [ b for b in ast.walk( loop[0] ) if isinstance( b, ast.Return ) or ( isinstance( b, ast.Break ) and src.enclosing( b, ( ast.For, ast.While )) is loop[0] ) ]
+    if escapes:
+        par = src.parent.get( escapes[0] )
+        res.bad( src, escapes[0], ( 'if %s: ' % norm_text( par.test ) if isinstance( par, ast.If ) else '' ) + norm_text( escapes[0] ),
+                 'the frame-parsing loop is left before the engine finished: a truncated frame (e.g. connection closed mid-frame) is handed to the request processor and acted upon' )
+    else:
+        res.ok( src, loop[0], 'the frame-parsing loop ends only by engine exhaustion or exception' )
     # received blocks are chained, EOF sets the eof flag
     if pfind( loop[0], 'source.chain( msg )' ):
         res.ok( src, loop[0], 'each received block is chained to the source' )
@@ -1128,7 +1136,16 @@ def p_act( ctx ):
         else:
             res.bad( csrc, a.stmt, a.stmt, 'a response can be returned although its frame has not been completely received' )
     # the frame engine is dropped on every exception of the framing loop
-    tries = [ t for t in walk_no_nested( nx ) if isinstance( t, ast.Try ) and any( isinstance( x, ast.For ) and dotted( x.iter ) == 'self.engine' for x in ast.walk( t )) ]
+    # the framing engine persists across calls while a frame is incomplete: it must never be closed on the `return None` (need more input) path
+    closers = [ c for c in ast.walk( nx ) if ( is_call_to( c, 'contextlib.closing', 'closing' ) and c.args and dotted( c.args[0] ) in ( 'self.engine', 'engine' ))
+                or is_call_to( c, 'self.engine.close' ) ]
+    if closers:
+        res.bad( csrc, closers[0], closers[0], 'the persistent framing engine is closed when __next__ returns for more input: a reply split over several received chunks can never be completed' )
+    else:
+        res.ok( csrc, nx, 'client.__next__ keeps its framing engine alive while a frame is incomplete (no close / closing)' )
+    def engine_loop( x ):
+        return isinstance( x, ast.For ) and dotted( x.iter ) in ( 'self.engine', 'engine' )
+    tries = [ t for t in walk_no_nested( nx ) if isinstance( t, ast.Try ) and any( engine_loop( x ) for x in ast.walk( t )) ]
     if len( tries ) != 1:
         raise AnalysisError( 'client.__next__: framing try not found' )
     hs = [ h for h in tries[0].handlers if h.type is None or dotted( h.type ) in ( 'Exception', 'BaseException' ) ]
